@@ -37,6 +37,7 @@ type part struct {
 	World, Profile string
 	QuickRuns      int // total runs in the quick tier
 	Weight         int // share of the thorough budget
+	PerProc        int // base scenarios per worker process (0 = default); processes are recycled because goroutines of finished bubbles cannot be reclaimed
 }
 
 type plan struct {
@@ -391,50 +392,81 @@ func runCheck(id, tier string, pl plan) int {
 				partBudget = 5
 			}
 		}
+		total := p.QuickRuns
+		if v := os.Getenv("VERIF_QUICK_PERCENT"); v != "" && partBudget == 0 {
+			if pc, err := strconv.Atoi(v); err == nil && pc > 0 {
+				total = max(W, total*pc/100)
+			}
+		}
+		chunk := p.PerProc
+		if chunk <= 0 {
+			chunk = 4000
+		}
+		if partBudget == 0 && total/W+1 < chunk {
+			chunk = total/W + 1
+		}
+		partStart := time.Now()
+		var next int // next chunk number, guarded by mu
 		for w := 0; w < W; w++ {
 			wg.Add(1)
 			go func(w int) {
 				defer wg.Done()
-				env := []string{
-					"VERIF_WORLD=" + p.World, "VERIF_PROFILE=" + p.Profile, "VERIF_PROPERTY=" + id, "VERIF_TIER=" + tier,
-					fmt.Sprintf("VERIF_SEED=%d", seed+uint64(pi)*1000003), fmt.Sprintf("VERIF_FROM=%d", w), fmt.Sprintf("VERIF_STRIDE=%d", W),
-					"VERIF_REPLAY_DIR=" + replayDir, "VERIF_KNOWN=" + strings.Join(knownClasses, ";"),
-				}
-				timeout := 20 * time.Minute
-				if partBudget > 0 {
-					env = append(env, "VERIF_TO=2000000000", fmt.Sprintf("VERIF_WORKER_BUDGET_S=%d", partBudget))
-					timeout = time.Duration(partBudget)*time.Second + 10*time.Minute
-				} else {
-					n := p.QuickRuns
-					if v := os.Getenv("VERIF_QUICK_PERCENT"); v != "" {
-						if pc, err := strconv.Atoi(v); err == nil && pc > 0 {
-							n = max(W, n*pc/100)
-						}
+				for {
+					mu.Lock()
+					j := next
+					next++
+					failed := len(harnessErr) > 0
+					mu.Unlock()
+					from, to := j*chunk, (j+1)*chunk
+					if failed {
+						return
 					}
-					env = append(env, fmt.Sprintf("VERIF_TO=%d", n))
+					env := []string{
+						"VERIF_WORLD=" + p.World, "VERIF_PROFILE=" + p.Profile, "VERIF_PROPERTY=" + id, "VERIF_TIER=" + tier,
+						fmt.Sprintf("VERIF_SEED=%d", seed+uint64(pi)*1000003), fmt.Sprintf("VERIF_FROM=%d", from), "VERIF_STRIDE=1",
+						"VERIF_REPLAY_DIR=" + replayDir, "VERIF_KNOWN=" + strings.Join(knownClasses, ";"),
+					}
+					timeout := 20 * time.Minute
+					if partBudget > 0 {
+						left := partBudget - int(time.Since(partStart).Seconds())
+						if left <= 0 {
+							return
+						}
+						env = append(env, fmt.Sprintf("VERIF_TO=%d", to), fmt.Sprintf("VERIF_WORKER_BUDGET_S=%d", left))
+						timeout = time.Duration(left)*time.Second + 10*time.Minute
+					} else {
+						if from >= total {
+							return
+						}
+						env = append(env, fmt.Sprintf("VERIF_TO=%d", min(to, total)))
+					}
+					outFile := filepath.Join(work, fmt.Sprintf("sum-%d-%d.json", pi, j))
+					out, err := runWorker(bin, env, outFile, timeout)
+					mu.Lock()
+					if err != nil {
+						harnessErr = append(harnessErr, fmt.Sprintf("worker %s/%s chunk %d: %v\n%s", p.World, p.Profile, j, err, tailStr(out, 6000)))
+						mu.Unlock()
+						return
+					}
+					b, rerr := os.ReadFile(outFile)
+					if rerr != nil {
+						harnessErr = append(harnessErr, fmt.Sprintf("worker %s/%s chunk %d wrote no summary: %v\n%s", p.World, p.Profile, j, rerr, tailStr(out, 3000)))
+						mu.Unlock()
+						return
+					}
+					os.Remove(outFile)
+					var s summary
+					if jerr := json.Unmarshal(b, &s); jerr != nil {
+						harnessErr = append(harnessErr, "bad summary: "+jerr.Error())
+						mu.Unlock()
+						return
+					}
+					if s.Harness != "" {
+						harnessErr = append(harnessErr, s.Harness)
+					}
+					sums = append(sums, s)
+					mu.Unlock()
 				}
-				outFile := filepath.Join(work, fmt.Sprintf("sum-%d-%d.json", pi, w))
-				out, err := runWorker(bin, env, outFile, timeout)
-				mu.Lock()
-				defer mu.Unlock()
-				if err != nil {
-					harnessErr = append(harnessErr, fmt.Sprintf("worker %s/%s #%d: %v\n%s", p.World, p.Profile, w, err, tailStr(out, 6000)))
-					return
-				}
-				b, rerr := os.ReadFile(outFile)
-				if rerr != nil {
-					harnessErr = append(harnessErr, fmt.Sprintf("worker %s/%s #%d wrote no summary: %v\n%s", p.World, p.Profile, w, rerr, tailStr(out, 3000)))
-					return
-				}
-				var s summary
-				if jerr := json.Unmarshal(b, &s); jerr != nil {
-					harnessErr = append(harnessErr, "bad summary: "+jerr.Error())
-					return
-				}
-				if s.Harness != "" {
-					harnessErr = append(harnessErr, s.Harness)
-				}
-				sums = append(sums, s)
 			}(w)
 		}
 		wg.Wait()
